@@ -2,10 +2,13 @@ import AslModel.Xml
 import AslProofs.Xml
 import AslProofs.XmlRt
 import AslProofs.XmlIds
+import AslProofs.XmlNorm
+import AslProps.C07Spec
 /-!
 # C07 — XML decoding is total and safe; encode then decode preserves the tree
 
-Property theorems only (helper lemmas: `AslProofs/Xml.lean`).  `AslModel.Xml.decode` is the
+Property theorems only (specification vocabulary: `AslProps/C07Spec.lean`; helper lemmas:
+`AslProofs/Xml*.lean`).  `AslModel.Xml.decode` is the
 transcription of `Xml::decode` that the model driver runs against the real library on every check;
 stack accesses are `Option`-valued there and a `none` surfaces as `Result.fault`.
 Termination: `run` is structural recursion over the input bytes (one `step` per byte, as the C++
@@ -48,28 +51,6 @@ theorem ref_buffer_fits (code : Int) : (utf8Bytes code).length + 1 ≤ 5 := by
 
 /-! ## parent links -/
 
-/-- children of a node as the public API shows them -/
-def children : Node → List Node
-  | .elem _ _ _ _ cs => cs
-  | .text .. => []
-
-/-- `Within e n`: `e` is `n` or a descendant of `n` -/
-inductive Within : Node → Node → Prop
-  | self (n : Node) : Within n n
-  | child {e c n : Node} : Within e n → c ∈ children e → Within c n
-
-theorem within_links {e n : Node} (he : Within e n) (hn : linksOK n = true) : linksOK e = true := by
-  induction he with
-  | self => exact hn
-  | @child e' c' n' _ hc ih =>
-    have h1 := ih hn
-    cases e' with
-    | text => simp [children] at hc
-    | elem id p t a cs =>
-      simp only [children] at hc
-      simp only [linksOK] at h1
-      exact (kidsOK_mem id cs h1 _ hc).2
-
 /-- in every tree returned by `decode`, each child's parent pointer is the identity of the
     element that contains it (for every element at any depth) -/
 theorem xml_parent_links (x : Bytes) (n : Node) (h : decode x = .node n) :
@@ -83,6 +64,11 @@ theorem xml_parent_links (x : Bytes) (n : Node) (h : decode x = .node n) :
     simp only [linksOK] at this
     exact (kidsOK_mem id cs this c hc).1
 
+/-- the returned element itself has no parent: `parent()` of the result is a null object, as `Xml.h`
+    documents for a root (before commit 5247de7 it pointed at the destroyed anonymous root) -/
+theorem xml_root_parent_null (x : Bytes) (n : Node) (h : decode x = .node n) : n.parent = none :=
+  decode_root_parent true x n h
+
 /-- the identities of the nodes of a returned tree (`ids`: the node, then its descendants in document
     order) are pairwise distinct — so "parent = identity of the container" in `xml_parent_links` names
     exactly one node of the tree -/
@@ -94,85 +80,19 @@ example : ∃ n, decode [60, 97, 62, 60, 98, 47, 62, 116, 60, 47, 97, 62] = .nod
   refine ⟨_, rfl, ?_⟩
   decide
 
-/-! ## specification of the promised normalisation -/
-
-/-- "whitespace-only" (space, tab, CR, LF), also true of the empty text -/
-def isBlank (s : Bytes) : Bool := s.all fun c => c == 32 || c == 9 || c == 13 || c == 10
-
-/-- merge adjacent text nodes -/
-def mergeText : List Tree → List Tree
-  | [] => []
-  | .text a :: r =>
-    match mergeText r with
-    | .text b :: r' => .text (a ++ b) :: r'
-    | r' => .text a :: r'
-  | .elem tag attrs cs :: r => .elem tag attrs cs :: mergeText r
-
-def keep : Tree → Bool
-  | .text s => !isBlank s
-  | .elem .. => true
-
-mutual
-/-- same tags, attributes, child order and text, up to merging adjacent text nodes and dropping blank text -/
-def normalize : Tree → Tree
-  | .text s => .text s
-  | .elem tag attrs cs => .elem tag attrs ((mergeText (normalizeList cs)).filter keep)
-def normalizeList : List Tree → List Tree
-  | [] => []
-  | t :: r => normalize t :: normalizeList r
-end
-
-theorem mergeText_text_text (a b : Bytes) (l : List Tree) :
-    mergeText (.text a :: .text b :: l) = mergeText (.text (a ++ b) :: l) := by
-  simp only [mergeText]
-  cases h : mergeText l with
-  | nil => simp
-  | cons x r' => cases x <;> simp
-
-theorem filter_mergeText_nil (l : List Tree) :
-    (mergeText (.text [] :: l)).filter keep = (mergeText l).filter keep := by
-  simp only [mergeText]
-  cases h : mergeText l with
-  | nil => simp [keep, isBlank]
-  | cons x r' => cases x <;> simp [keep, isBlank]
-
-theorem any_not_ws (w : Bytes) : (w.any fun x => !isWs x) = !isBlank w := by
-  induction w with
-  | nil => rfl
-  | cons a t ih => simp [isBlank, isWs] at ih ⊢; rw [ih]
-
-theorem flushK_spec (ks : List Tree) (w : Bytes) : flushK ks w = ks ++ [Tree.text w].filter keep := by
-  unfold flushK
-  rw [any_not_ws]
-  cases h : isBlank w <;> simp [keep, h]
-
-mutual
-theorem normOp_eq_normalize : ∀ t : Tree, normOp t = normalize t
-  | .text s => by simp [normOp, normalize]
-  | .elem tag attrs cs => by
-    have := absorb_spec cs [] []
-    simp only [normOp, normalize, this, List.nil_append, filter_mergeText_nil]
-theorem absorb_spec : ∀ (cs : List Tree) (w : Bytes) (ks : List Tree),
-    flushK (absorbL cs w ks).2 (absorbL cs w ks).1 = ks ++ (mergeText (.text w :: normalizeList cs)).filter keep
-  | [], w, ks => by simp [absorbL, normalizeList, mergeText, flushK_spec]
-  | .text s :: r, w, ks => by
-    have := absorb_spec r (w ++ s) ks
-    simp only [absorbL, normalizeList, normalize, mergeText_text_text, this]
-  | .elem tag attrs cs :: r, w, ks => by
-    have h1 := absorb_spec r [] (flushK ks w ++ [normOp (.elem tag attrs cs)])
-    have h2 := normOp_eq_normalize (.elem tag attrs cs)
-    simp only [absorbL]
-    rw [h1, filter_mergeText_nil, h2, flushK_spec]
-    simp only [normalizeList, normalize, mergeText]
-    cases hk : keep (.text w) <;> simp [List.filter_cons, hk] <;> simp [keep]
-end
-
-
 /-! ## encode then decode
 
 `NameOK` (well-formed tag / attribute name) is the decoder's own test: non-empty, first byte not in its
 `TAG_START` error class, the others not in its `TAG` error class.  `ValidTree`: names `NameOK`,
 attribute lists as a `Map` holds them (strictly increasing keys), values and text without NUL. -/
+
+/-- "well-formed tag and attribute names": every XML 1.0 `Name` (as UTF-8 bytes) passes the decoder's own
+    name tests, so the round-trip theorems below cover all trees with well-formed names -/
+theorem xml_names_accepted (n : Bytes) (h : XmlName n) : NameOK n := nameOK_of_xmlName n h
+
+/-- non-vacuity: `x:é-1` (UTF-8) is an XML name -/
+example : XmlName [120, 58, 195, 169, 45, 49] := by
+  simp [XmlName, xmlNameStartByte, xmlNameByte]
 
 /-- reference expansion inverts `escape`: reading `escape v` in text or inside a double-quoted
     attribute value appends exactly `v` to the buffer and changes nothing else, for every NUL-free `v`
